@@ -894,6 +894,36 @@ def written_cmaps(document):
     return out
 
 
+def written_bfchar_lines(document):
+    """[(glyph, text of font.cmap, the bfchar line written for it)] over all fonts of a painted document: the
+    entries of `font.cmap` in order against the lines between beginbfchar / endbfchar, in order."""
+    import pydyf
+    from weasyprint import DEFAULT_OPTIONS
+    from weasyprint.pdf.fonts import build_fonts_dictionary
+    pdf = pydyf.PDF()
+    references = build_fonts_dictionary(pdf, document.fonts, False, True, dict(DEFAULT_OPTIONS))
+    by_number = {obj.number: obj for obj in pdf.objects if hasattr(obj, 'number')}
+    out = []
+    by_hash = {font.hash: font for font in document.fonts.values()}    # the last font of a hash is the one kept
+    for font_hash, reference in references.items():
+        font_dict = by_number[int(reference.split()[0])]
+        stream = by_number[int(font_dict['ToUnicode'].split()[0])]
+        lines, inside = [], False
+        for line in stream.stream:
+            if line.endswith(b'beginbfchar'):
+                inside = True
+            elif line == b'endbfchar':
+                inside = False
+            elif inside:
+                lines.append(line.decode('ascii', 'replace'))
+        items = list(by_hash[font_hash].cmap.items())
+        if len(items) != len(lines):
+            out.append((0, '', f'{len(lines)} bfchar lines for {len(items)} glyphs of the font'))
+            continue
+        out.extend((glyph, text, line) for (glyph, text), line in zip(items, lines))
+    return out
+
+
 def text_runs(stream, runs=None):
     """[(x, y, [(font, [glyph…])…])] for every text matrix set in the stream (groups included)."""
     import re
